@@ -118,6 +118,45 @@ def eval_doc(args):
     return dict(doc=doc, ver=ver, cases=n, bad=bad[:3], known=known, known2=known2)
 
 
+# ---------------------------------------------------------------- a no-namespace schema written with the XSD namespace as its default namespace
+SCHEMA_DEF = '''<schema xmlns="http://www.w3.org/2001/XMLSchema"><element name="root"><complexType><sequence>
+ <element name="a" maxOccurs="unbounded"><complexType><sequence><element name="v" type="int" maxOccurs="unbounded"/>
+   <element name="b" minOccurs="0"><complexType><sequence><element name="v" type="date"/></sequence></complexType></element></sequence></complexType></element>
+ </sequence></complexType></element></schema>'''
+
+
+def eval_nons(args):
+    ver, doc = args
+    import xmlschema
+    s = _S.get((ver, 'def')) or _S.setdefault((ver, 'def'), _cls(ver)(SCHEMA_DEF))
+    res = xmlschema.XMLResource(doc); root = res.root; parent = {c: p for p in root.iter() for c in p}
+    bad = []; n = 0
+    def path_of(e, positional):
+        steps = []; x = e
+        while x is not root:
+            p = parent[x]; name = x.tag
+            if positional: name += f'[{[c for c in p if c.tag == x.tag].index(x) + 1}]'
+            steps.append(name); x = p
+        return '/root/' + '/'.join(reversed(steps))
+    governing = {}
+    def hook(e, x): governing[e] = x; return False
+    try:
+        full = list(s.iter_errors(res, validation_hook=hook))
+        for e in root.iter():
+            if e is root: continue
+            n += 1
+            found = s.find(path_of(e, False), {}); gov = governing.get(e)        # the instance declares nothing: an EMPTY map (None would mean the schema's own declarations)
+            if gov is not None and found is not gov: bad.append(('find', path_of(e, False), repr(found), repr(gov)))
+            p = path_of(e, True)
+            perrs = sorted(x.reason for x in s.iter_errors(res, path=p)); want = sorted(x.reason for x in full if x.elem in set(e.iter()))
+            if perrs != want: bad.append(('partial errors', p, perrs[:2], want[:2]))
+            if s.is_valid(res, path=p) != (not want): bad.append(('partial verdict', p))
+        lz = sorted(x.reason for x in s.iter_errors(xmlschema.XMLResource(doc, lazy=True)))
+        if lz != sorted(x.reason for x in full): bad.append(('lazy errors', len(lz), len(full)))
+    except Exception as e: bad.append(('exception', f'{type(e).__name__}: {e}'))
+    return dict(doc=doc, ver=ver, cases=n, bad=bad[:3])
+
+
 def run(tier, seed, open_findings):
     rng = random.Random(seed); n = 4000 if tier == 'thorough' else 60
     docs = [gen(rng) for _ in range(n)]
@@ -128,6 +167,16 @@ def run(tier, seed, open_findings):
     K = 'C20-partial-validation-ignores-intermediate-xmlns'; nk = sum(len(r['known']) for r in res)
     if nk and K not in open_findings:
         fails += [dict(case=dict(doc=r['doc'], ver=r['ver']), observed=['partial errors differ by unmapped-prefix errors', r['known'][0]], required='partial = restriction of the whole') for r in res if r['known']]
+    ndocs = []
+    for _ in range(n // 3):
+        parts = []
+        for i in range(rng.randrange(1, 4)):
+            vs = ''.join(f'<v>{rng.choice(["1", "22", "x"])}</v>' for _ in range(rng.randrange(1, 3)))
+            parts.append(f'<a>{vs}' + (f'<b><v>{rng.choice(["2020-01-01", "nope"])}</v></b>' if rng.random() < .5 else '') + '</a>')
+        ndocs.append('<root>' + ''.join(parts) + '</root>')       # no namespace declaration at all: the run-time namespace map is empty
+    nres = pmap(eval_nons, [(ver, d) for d in ndocs for ver in ('1.0', '1.1')])
+    fails += [dict(case=dict(nons=True, doc=r['doc'], ver=r['ver']), observed=list(b), required='find = governing declaration; partial = restriction of the whole (schema with the XSD namespace as default)') for r in nres for b in r['bad']]
+    cases += sum(r['cases'] for r in nres)
     K2 = 'C20-partial-decode-drops-xmlns-declarations'; nk2 = sum(len(r['known2']) for r in res)
     if nk2 and K2 not in open_findings:
         fails += [dict(case=dict(doc=r['doc'], ver=r['ver']), observed=['partial data lacks the @xmlns entries of the selected element', r['known2'][0]], required='partial = restriction of the whole') for r in res if r['known2']]
@@ -137,5 +186,7 @@ def run(tier, seed, open_findings):
 
 
 def replay(check_name, case):
+    if case.get('nons'):
+        r = eval_nons((case['ver'], case['doc'])); return dict(ok=not r['bad'], observed=r['bad'], required='find = governing declaration; partial = restriction')
     r = eval_doc((case['ver'], case['doc']))
     return dict(ok=not r['bad'] and not r['known'] and not r['known2'], observed=r['bad'] or r['known'] or r['known2'], required='find = governing declaration; partial = restriction')
